@@ -27,6 +27,11 @@ package main
 // Lines:  begin C rw|ro D | get C K | put C K V | del C K | commit C | rollback C     (by handle)
 //         oget C K | oput C K V | odel C K | ocommit C | orollback C   (on the kept object, svc=0)
 //         remove C | abandon C | sleep N | stale | cleanconn C | shutdown | failnext | probe | dump
+//         oneshot C ok|del|emptykey|longkey|badtype|bigvalue K V   (svc=1: one BatchWrite of the
+//                 service, which begins, uses and ends a read-write transaction of its own inside the
+//                 call; ok = [PUT K V], del = [DELETE K], the others = [PUT K V, <an operation the
+//                 service rejects>]; answered `R C ok|invalid|fail`, or `R C busy` without calling
+//                 when the lock is not free — the real call would wait uninterruptibly)
 // Observations (mirrored by model/drv_c17.ml): B C ok|wait|busy | A C ok|timeout | R C <res> |
 //         G C v:<V>|notfound|closed|txnotfound|invalid|nohandle | M ok|panic | P ok|blocked |
 //         S reg=<n> lock=free|read|write (after every line) | D n=<k> + d K V
@@ -66,6 +71,8 @@ const (
 	c17ProbeClient = 99
 	c17ProbeKey    = 9
 	c17GuardMs     = 60 // deadlines closer than this (x scale) to a line are waited out first
+	c17MaxKey      = 4096             // service.go: maxKeySize
+	c17MaxValue    = 10 * 1024 * 1024 // service.go: maxValueSize
 )
 
 // ---------------------------------------------------------------------------------------
@@ -273,7 +280,11 @@ type c17Env struct {
 	fails   []string   // oracle failures
 	ref     map[int]int
 	commits int // acknowledged commits that applied something
-	stats   struct{ waits, timeouts, afterFinish, cleaned, clients, asyncOk int }
+	stats   struct {
+		waits, timeouts, afterFinish, cleaned, clients, asyncOk int
+		oneshots, oneshotRejected, oneshotBusy                  int // BatchWrite calls issued / rejected by the service / not issued (lock busy)
+	}
+	abort bool // the case cannot go on (a service call left the lock held or did not return)
 }
 
 type c17Done struct {
@@ -375,7 +386,8 @@ func c17Start(c *Case, scale int) (*c17Env, error) {
 		if err != nil {
 			return nil, err
 		}
-		v.gs = grpc.NewServer(grpc.UnaryInterceptor(func(ctx context.Context, req interface{}, info *grpc.UnaryServerInfo, h grpc.UnaryHandler) (interface{}, error) {
+		// (the receive limit only lets the over-long value of `oneshot ... bigvalue` reach the service)
+		v.gs = grpc.NewServer(grpc.MaxRecvMsgSize(c17MaxValue+(1<<20)), grpc.UnaryInterceptor(func(ctx context.Context, req interface{}, info *grpc.UnaryServerInfo, h grpc.UnaryHandler) (interface{}, error) {
 			if v.peer {
 				// what a server that tracks connections would do; cmd/kevo installs nothing, so there
 				// every transaction is tracked under "unknown" (peer=0)
@@ -795,6 +807,20 @@ func (v *c17Env) begin(c int, ro bool, d int) string {
 			// the machine stalled for longer than the deadline inside this very line: at the noted
 			// time the call was waiting; its time-out is reported with the line whose noted time
 			// has passed the deadline (exactly what happens to a call that times out later)
+			// ... provided it timed out WAITING FOR THE LOCK. If its creating goroutine was handed the
+			// lock (or had not even asked for it) when the client gave up, the deadline fell between
+			// the request and the answer of a Begin that did not have to wait: which of the two comes
+			// first is the machine's speed, not the script (the server may well have registered the
+			// transaction for a client that is gone)
+			v.mu.Lock()
+			var in *c17Inner
+			if len(v.inners) > cl.nInners {
+				in = v.inners[cl.nInners]
+			}
+			v.mu.Unlock()
+			if in == nil || in.granted.Load() {
+				v.ambiguous("the deadline of client %d's Begin (%d ms) passed inside its own line (%d..%d ms) although it was not waiting for the lock", c, cl.dlHi, v.lnow, v.nowMs())
+			}
 			v.held = append(v.held, c17Done{c, r, cl.dlHi})
 			v.stats.waits++
 			return "wait"
@@ -804,6 +830,109 @@ func (v *c17Env) begin(c int, ro bool, d int) string {
 		v.stats.waits++
 		return "wait"
 	}
+}
+
+// One BatchWrite of the service: a transaction the service begins ITSELF (engine.BeginTransaction,
+// not the registry), uses and must end — commit, or rollback on any rejection — before it answers.
+// Oracle (from the property text alone): once the call has returned, the transaction lock is free
+// again and the registry holds what it held.
+func (v *c17Env) oneshot(c int, kind string, k, val int) string {
+	if !v.svc {
+		return "IMPL-ERROR oneshot needs svc=1"
+	}
+	put := func(key, value []byte) *pb.Operation {
+		return &pb.Operation{Type: pb.Operation_PUT, Key: key, Value: value}
+	}
+	first := put(c17Key(k), c17Val(val))
+	var ops []*pb.Operation
+	what := ""
+	switch kind {
+	case "ok":
+		ops, what = []*pb.Operation{first}, "one put"
+	case "del":
+		ops, what = []*pb.Operation{{Type: pb.Operation_DELETE, Key: c17Key(k)}}, "one delete"
+	case "emptykey":
+		ops, what = []*pb.Operation{first, put([]byte{}, []byte("x"))}, "rejected: invalid key (empty)"
+	case "longkey":
+		ops, what = []*pb.Operation{first, put([]byte(strings.Repeat("K", c17MaxKey+1)), []byte("x"))}, "rejected: invalid key (longer than the limit)"
+	case "badtype":
+		ops, what = []*pb.Operation{first, {Type: pb.Operation_Type(7), Key: c17Key(5), Value: []byte("x")}}, "rejected: unknown operation type"
+	case "bigvalue":
+		ops, what = []*pb.Operation{first, put(c17Key(5), make([]byte, c17MaxValue+1))}, "rejected: value larger than the limit"
+	default:
+		return "IMPL-ERROR bad oneshot kind " + kind
+	}
+	if k == 0 && (kind == "ok" || kind == "del") {
+		what = "rejected: invalid key (empty)"
+	}
+	if v.lockState() != "free" {
+		// somebody holds or waits for the lock: BatchWrite would park in sync.RWMutex.Lock with no
+		// way to give up
+		v.stats.oneshotBusy++
+		return fmt.Sprintf("R %d busy", c)
+	}
+	regBefore := v.regIDs()
+	v.mu.Lock()
+	n0 := len(v.inners)
+	v.mu.Unlock()
+	v.stats.oneshots++
+	ctx, cancel := context.WithTimeout(v.ctxFor(c, context.Background()), 5*time.Second)
+	resp, err := v.cli.BatchWrite(ctx, &pb.BatchWriteRequest{Operations: ops})
+	cancel()
+	res := c17Class(err)
+	if err != nil {
+		msg := err.Error()
+		if st, ok := status.FromError(err); ok {
+			msg = st.Message()
+		}
+		if strings.Contains(msg, "value too large") || strings.Contains(msg, "unknown operation type") {
+			res = "invalid"
+		}
+	} else if !resp.Success {
+		res = "err:success=false_without_error"
+	}
+	if res == "timeout" {
+		// where is the handler? parked in a lock (the transaction lock was free when it was called) or
+		// otherwise asleep: it will not return; in a system call / not even started: the machine
+		var in *c17Inner
+		v.mu.Lock()
+		if len(v.inners) > n0 {
+			in = v.inners[n0]
+		}
+		v.mu.Unlock()
+		st := "not started"
+		if in != nil {
+			st = goroutineStates()[in.gid]
+		}
+		v.abort = true
+		if in == nil || st == "" || st == "syscall" || st == "IO wait" || st == "running" || st == "runnable" {
+			v.ambiguous("BatchWrite took more than 5 s (handler: %s)", st)
+		} else {
+			v.fail("the service's BatchWrite (%s) did not return within 5 s although the transaction lock was free (its handler is parked: %s)", what, st)
+		}
+		return fmt.Sprintf("R %d timeout", c)
+	}
+	switch res {
+	case "ok":
+		// the batch was applied: one more acknowledged commit
+		if kind == "del" {
+			delete(v.ref, k)
+		} else {
+			v.ref[k] = val
+		}
+		v.commits++
+	case "invalid":
+		v.stats.oneshotRejected++
+	}
+	// the handler has answered; let its goroutine finish, then look at what it left behind
+	v.quiesce()
+	if ls := v.lockState(); ls != "free" {
+		v.fail("the service's BatchWrite (%s; answered %q) left the transaction lock held (lock=%s after the call returned)", what, res, ls)
+		v.abort = true
+	} else if after := v.regIDs(); after != regBefore {
+		v.fail("the service's BatchWrite (%s; answered %q) changed the registered transactions (%s -> %s)", what, res, regBefore, after)
+	}
+	return fmt.Sprintf("R %d %s", c, res)
 }
 
 func (v *c17Env) noteResult(t *c17Tx, what, res string) {
@@ -1114,6 +1243,12 @@ func (v *c17Env) runLines(c *Case) {
 		case "probe":
 			v.probe()
 			releasing = true
+		case "oneshot":
+			kind := ""
+			if len(l) > 2 {
+				kind = l[2]
+			}
+			v.out(v.oneshot(ai(1), kind, ai(3), ai(4)))
 		default:
 			v.out("IMPL-ERROR bad line " + strings.Join(l, " "))
 		}
@@ -1124,6 +1259,9 @@ func (v *c17Env) runLines(c *Case) {
 		if v.stuck {
 			v.fail("the implementation did not come to rest within 10 s after %q", strings.Join(l, " "))
 			v.stuck = false
+		}
+		if v.abort {
+			break
 		}
 	}
 }
@@ -1370,8 +1508,9 @@ func runC17(c *Case, out func(string)) {
 	if v.slipped {
 		sl = 1
 	}
-	out(fmt.Sprintf("META lines=%d clients=%d svc=%v wiring=%s waits=%d async_ok=%d timeouts=%d after_finish=%d cleaned=%d scale=%d attempts=%d ambiguous=%d nontrivial=%d",
-		len(c.Lines), v.stats.clients, v.svc, v.wiring, v.stats.waits, v.stats.asyncOk, v.stats.timeouts, v.stats.afterFinish, v.stats.cleaned, scale, attempts, sl, nt))
+	out(fmt.Sprintf("META lines=%d clients=%d svc=%v wiring=%s waits=%d async_ok=%d timeouts=%d after_finish=%d cleaned=%d oneshot=%d oneshot_rejected=%d oneshot_busy=%d scale=%d attempts=%d ambiguous=%d nontrivial=%d",
+		len(c.Lines), v.stats.clients, v.svc, v.wiring, v.stats.waits, v.stats.asyncOk, v.stats.timeouts, v.stats.afterFinish, v.stats.cleaned,
+		v.stats.oneshots, v.stats.oneshotRejected, v.stats.oneshotBusy, scale, attempts, sl, nt))
 }
 
 var (
